@@ -140,6 +140,16 @@ def agree(answer, item):
     return x == float(v)
 
 
+class PExpr:
+    """One probe expression: text, kind label, does it read storage, is it a
+    bare lvalue, and (for array elements) a text with a subscript far out of
+    range."""
+
+    def __init__(self, txt, kind, reads, is_lv, far=None):
+        self.txt, self.kind, self.reads, self.is_lv, self.far = (
+            txt, kind, reads, is_lv, far)
+
+
 def judge(prog, script, style, level, cfg):
     rendered = render.render(prog, style)
     text = rendered.text
@@ -154,11 +164,6 @@ def judge(prog, script, style, level, cfg):
         return [], info
     info['accepted'] = True
     module = m.module
-    free = X.execute(module, X.Script(**script),
-                     tick_budget=cfg['tick_budget'])
-    if free.outcome[0] in ('budget', 'input_exhausted', 'host_exc'):
-        info['inconclusive'] = 'free_run_' + free.outcome[0]
-        return [], info
     recs = find_probe_records(module, probes, rendered)
     if not recs:
         info['inconclusive'] = 'probe_record_not_identified'
@@ -167,14 +172,35 @@ def judge(prog, script, style, level, cfg):
     exprs = {}
     for p in probes:
         if id(p) in recs:
-            es = [e for e in p.items[1:] if not isinstance(e, str)]
-            exprs[recs[id(p)].start_offset] = [(e, rr.expr(e)) for e in es]
-    # an array visible somewhere, for the out-of-range subscript
+            lst = []
+            for e in p.items[1:]:
+                if isinstance(e, str):
+                    continue
+                far = None
+                if isinstance(e, A.LV) and e.idx:
+                    far = rr.expr(A.LV(e.name, [A.Num('%', 30000, '30000')] +
+                                       list(e.idx[1:]), e.fields, e.t))
+                lst.append(PExpr(rr.expr(e), kind_of(e), reads_storage(e),
+                                 isinstance(e, A.LV), far))
+            exprs[recs[id(p)].start_offset] = lst
+    failures = core(module, exprs, script, level, cfg, info)
+    return failures, info
+
+
+def core(module, exprs, script, level, cfg, info):
+    """Runs the module under the debugger with a breakpoint at every probe
+    address and compares; -> list of (bucket, detail)."""
+    free = X.execute(module, X.Script(**script),
+                     tick_budget=cfg['tick_budget'])
+    if free.outcome[0] in ('budget', 'input_exhausted', 'host_exc'):
+        info['inconclusive'] = 'free_run_' + free.outcome[0]
+        return []
     from qvm.dbg import Cmd
     failures = []
     machine, impl, out = X.make_machine(module, X.Script(**script))
     cpu = machine.cpu
     seen_values = {}
+    max_hits = cfg.get('max_hits', MAX_HITS)
 
     def ask(dbg, text_):
         buf = io.StringIO()
@@ -198,8 +224,7 @@ def judge(prog, script, style, level, cfg):
                     dbg.onecmd('break 0x%x' % addr)
             hits = 0
             pending = None
-            while hits < MAX_HITS:
-                n_ev = len(impl.events)
+            while hits < max_hits:
                 with contextlib.redirect_stdout(sink):
                     dbg.onecmd('continue')
                 # the probe print executed since the previous stop
@@ -218,22 +243,20 @@ def judge(prog, script, style, level, cfg):
                     frame_depth += 1
                     f = f.prev_frame
                 answers = []
-                for e, txt in exprs[cpu.pc]:
-                    answers.append((e, txt, ask(dbg, txt)))
+                for pe in exprs[cpu.pc]:
+                    answers.append((pe, ask(dbg, pe.txt)))
                 a = ask(dbg, 'zzqj9')
                 if not a.startswith('Eval error'):
                     failures.append(('unknown_name_not_reported',
                                      {'answer': a[:80]}))
-                for e, txt in exprs[cpu.pc]:
-                    if isinstance(e, A.LV) and e.idx:
-                        far = A.LV(e.name, [A.Num('%', 30000, '30000')] +
-                                   list(e.idx[1:]), e.fields, e.t)
-                        a = ask(dbg, rr.expr(far))
+                for pe in exprs[cpu.pc]:
+                    if pe.far:
+                        a = ask(dbg, pe.far)
                         info['kinds'].add('out_of_range_subscript')
                         if not a.startswith('Eval error'):
                             failures.append((
                                 'out_of_range_subscript_not_reported',
-                                {'expr': rr.expr(far), 'answer': a[:80]}))
+                                {'expr': pe.far, 'answer': a[:80]}))
                 pending = {'n_ev': len(impl.events), 'answers': answers,
                            'pc': cpu.pc, 'in_proc': frame_depth > 1}
             # run to the end without breakpoints
@@ -242,15 +265,14 @@ def judge(prog, script, style, level, cfg):
                     cpu.del_breakpoint(bp)
                 if not (cpu.halted and
                         cpu.halt_reason.name != 'BREAKPOINT'):
-                    n_ev = len(impl.events)
                     dbg.onecmd('continue')
             if pending is not None:
                 compare(pending, impl.events[pending['n_ev']:], failures,
                         info, seen_values)
             # after the end: every expression again, nothing may escape
             for addr, lst in exprs.items():
-                for e, txt in lst:
-                    ask(dbg, txt)
+                for pe in lst:
+                    ask(dbg, pe.txt)
             ask(dbg, 'zzqj9')
     except X.HangGuard:
         failures.append(('hang', {}))
@@ -264,7 +286,7 @@ def judge(prog, script, style, level, cfg):
     for b, d in failures:
         seen.setdefault(b, dict(d, level=level))
     info['varying'] = sum(1 for v in seen_values.values() if len(v) > 1)
-    return list(seen.items()), info
+    return list(seen.items())
 
 
 def compare(pending, events, failures, info, seen_values):
@@ -282,25 +304,24 @@ def compare(pending, events, failures, info, seen_values):
     answers = pending['answers']
     if len(vals) != len(answers):
         return
-    for (e, txt, ans), item in zip(answers, vals):
+    for (pe, ans), item in zip(answers, vals):
         info['compared'] += 1
-        kind = kind_of(e)
-        info['kinds'].add(kind)
-        if reads_storage(e) and pending['in_proc']:
+        info['kinds'].add(pe.kind)
+        if pe.reads and pending['in_proc']:
             info['in_proc'] += 1
-        seen_values.setdefault((pending['pc'], txt), set()).add(repr(item))
+        seen_values.setdefault((pending['pc'], pe.txt), set()).add(repr(item))
         if agree(ans, item):
             continue
         if 'does not have a value yet' in ans and (
-                not isinstance(e, A.LV) or item[2] in (0, 0.0, '')):
+                not pe.is_lv or item[2] in (0, 0.0, '')):
             # a never-assigned variable (alone: the program reads the
             # default value; inside a compound expression: admitted)
             info['kinds'].add('unassigned_admitted')
             continue
         what = 'eval_error' if ans.startswith('Eval error') else \
             'wrong_value'
-        failures.append(('%s:%s' % (what, kind), {
-            'expr': txt, 'debugger': ans[:120], 'program': list(item),
+        failures.append(('%s:%s' % (what, pe.kind), {
+            'expr': pe.txt, 'debugger': ans[:120], 'program': list(item),
             'in_procedure': pending['in_proc']}))
 
 
@@ -354,6 +375,12 @@ def check(case, cfg):
 
 
 def replay(obj, cfg):
+    if obj.get('probes') is not None:
+        by_line = {int(k): [PExpr(t, kd, True, True, far)
+                            for t, kd, far in v]
+                   for k, v in obj['probes'].items()}
+        r = judge_text(obj['text'], by_line, obj['level'], cfg, [])
+        return {'failures': r['failures']}
     prog, script, style, text = cases.decode_case(obj)
     failures, info = judge(prog, script, style, obj['level'], cfg)
     return {'failures': [{'bucket': b, 'detail': d, 'case': obj}
@@ -362,6 +389,8 @@ def replay(obj, cfg):
 
 def shrink(failure, cfg):
     obj = failure['case']
+    if obj.get('probes') is not None:
+        return failure
     prog, script, style, text = cases.decode_case(obj)
     level = obj['level']
     bucket = failure['bucket']
@@ -376,3 +405,220 @@ def shrink(failure, cfg):
             return {'bucket': b, 'detail': d, 'case': cases.encode_case(
                 small, script, style, {'level': level})}
     return failure
+
+
+# ---------------------------------------------------------------------------
+# Deterministic catalogue: every declaration shape x every scope, all leaves
+# assigned distinct values and probed (storage layout as the debugger
+# re-derives it, against the layout the program uses).
+TYPES_SRC = ('TYPE tin\nia AS INTEGER\nib AS DOUBLE\nEND TYPE\n'
+             'TYPE tout\npa AS LONG\nqa AS tin\nra AS STRING\nsa AS SINGLE\n'
+             'END TYPE\n')
+LEAVES = {'tin': [('.ia', '%'), ('.ib', '#')],
+          'tout': [('.pa', '&'), ('.qa.ia', '%'), ('.qa.ib', '#'),
+                   ('.ra', '$'), ('.sa', '!')]}
+SHAPES = [
+    # (name, element type, bounds or None, dynamic)
+    ('scalar_long', '&', None, False),
+    ('scalar_string', '$', None, False),
+    ('scalar_double', '#', None, False),
+    ('array1_long', '&', [(0, 2)], False),
+    ('array2_double', '#', [(1, 2), (0, 2)], False),
+    ('array3_integer', '%', [(1, 2), (0, 1), (3, 4)], False),
+    ('array2_string', '$', [(1, 2), (1, 2)], False),
+    ('record_nested', 'tout', None, False),
+    ('array1_record', 'tout', [(1, 2)], False),
+    ('array2_record', 'tout', [(0, 1), (1, 2)], False),
+    ('array3_record', 'tin', [(1, 2), (0, 1), (3, 4)], False),
+    ('dynamic2_record', 'tin', [(1, 2), (0, 2)], True),
+    ('dynamic1_long', '&', [(1, 3)], True),
+]
+SCOPES = ['module', 'shared_in_sub', 'local_in_sub', 'static_in_sub',
+          'parameter', 'local_in_function_below_sub']
+TYPE_WORD = {'%': 'INTEGER', '&': 'LONG', '!': 'SINGLE', '#': 'DOUBLE',
+             '$': 'STRING'}
+
+
+def shape_program(shape, scope):
+    """-> (text, {line: [PExpr]})"""
+    import itertools
+    name, et, bounds, dynamic = shape
+    tw = TYPE_WORD.get(et, et)
+
+    def decl(kw, var):
+        if bounds is None:
+            return '%s %s AS %s' % (kw, var, tw)
+        bs = ', '.join(
+            ('%d TO %s' % (lo, 'n%d%%' % k if dynamic else hi))
+            for k, (lo, hi) in enumerate(bounds))
+        return '%s %s(%s) AS %s' % (kw, var, bs, tw)
+
+    def leaves(var):
+        out = []
+        idxs = [()] if bounds is None else list(itertools.product(
+            *[range(lo, hi + 1) for lo, hi in bounds]))
+        for ix in idxs:
+            base = var + ('(%s)' % ', '.join(map(str, ix)) if ix else '')
+            for suffix, t in (LEAVES.get(et) or [('', et)]):
+                far = None
+                if ix:
+                    far = var + '(%s)' % ', '.join(
+                        ['30000'] + [str(i) for i in ix[1:]]) + suffix
+                out.append((base + suffix, t, far))
+        return out
+
+    def assigns(var):
+        lines = []
+        for k, (txt, t, _) in enumerate(leaves(var)):
+            if t == '$':
+                val = '"s%d"' % k
+            elif t in '#!':
+                val = '%d.5' % (k + 1)
+            else:
+                val = str(100 + k)
+            lines.append('%s = %s' % (txt, val))
+        return lines
+
+    def probes(var, kind):
+        lines = []
+        plist = []
+        lv = leaves(var)
+        for c in range(0, len(lv), 5):
+            chunk = lv[c:c + 5]
+            lines.append('PRINT "@@"; ' + '; '.join(t for t, _, _ in chunk))
+            plist.append([PExpr(t, kind + (':field' if '.' in t else ''),
+                                True, True, far) for t, _, far in chunk])
+        return lines, plist
+
+    dyn_setup = []
+    if dynamic:
+        dyn_setup = ['n%d%% = %d' % (k, hi) for k, (lo, hi) in
+                     enumerate(bounds)]
+    pad1 = 'pada& = 77001'
+    pad2 = 'padb# = 77002.5'
+    pad_probe = 'PRINT "@@"; pada&; padb#'
+    pad_pe = [PExpr('pada&', 'pad', True, True), PExpr('padb#', 'pad', True,
+                                                       True)]
+    main = []
+    subs = []
+    probe_sets = []        # (list of lines, list of PExpr lists)
+    if scope == 'module':
+        body = [pad1] + dyn_setup + [decl('DIM', 'v'), pad2] + assigns('v')
+        pl, pp = probes('v', name)
+        main = body + pl + [pad_probe]
+        probe_sets = pp + [pad_pe]
+        text_lines = main
+    elif scope == 'shared_in_sub':
+        if dynamic:
+            return None
+        main = [decl('DIM SHARED', 'v'), 'DIM SHARED pada AS LONG',
+                'pada = 77001'] + assigns('v') + ['CALL sp']
+        pl, pp = probes('v', name)
+        subs = ['SUB sp', 'lcl% = 5'] + pl + ['PRINT "@@"; pada; lcl%',
+                                               'END SUB']
+        probe_sets = pp + [[PExpr('pada', 'pad', True, True),
+                            PExpr('lcl%', 'pad', True, True)]]
+        text_lines = main + subs
+    elif scope in ('local_in_sub', 'static_in_sub',
+                   'local_in_function_below_sub'):
+        kw = 'STATIC' if scope == 'static_in_sub' else 'DIM'
+        if dynamic and kw == 'STATIC':
+            return None
+        pl, pp = probes('v', name)
+        inner = [pad1] + dyn_setup + [decl(kw, 'v'), pad2] + assigns('v') + \
+            pl + [pad_probe]
+        probe_sets = pp + [pad_pe]
+        if scope == 'local_in_function_below_sub':
+            main = ['CALL sp(3)']
+            subs = ['SUB sp (k%)', 'z& = fz&(k% + 1)', 'END SUB',
+                    'FUNCTION fz& (m%)'] + inner + ['fz& = m%',
+                                                   'END FUNCTION']
+        else:
+            main = ['CALL sp', 'CALL sp'] if kw == 'STATIC' else ['CALL sp']
+            subs = ['SUB sp'] + inner + ['END SUB']
+        text_lines = main + subs
+    elif scope == 'parameter':
+        main = dyn_setup + [decl('DIM', 'w')] + assigns('w')
+        if bounds is None:
+            main.append('CALL sp(7, w, 9.5)')
+            ptxt = 'p AS %s' % tw
+        else:
+            main.append('CALL sp(7, w(), 9.5)')
+            ptxt = 'p() AS %s' % tw
+        pl, pp = probes('p', name + ':param')
+        subs = ['SUB sp (pa%%, %s, pb#)' % ptxt, 'lc& = 5'] + pl + \
+            ['PRINT "@@"; pa%; pb#; lc&', 'END SUB']
+        probe_sets = pp + [[PExpr('pa%', 'pad', True, True),
+                            PExpr('pb#', 'pad', True, True),
+                            PExpr('lc&', 'pad', True, True)]]
+        text_lines = main + subs
+    text = TYPES_SRC + '\n'.join(text_lines) + '\n'
+    by_line = {}
+    k = 0
+    for ln, line in enumerate(text.split('\n'), 1):
+        if line.startswith('PRINT "@@"'):
+            by_line[ln] = probe_sets[k]
+            k += 1
+    assert k == len(probe_sets), (k, len(probe_sets))
+    return text, by_line
+
+
+def items(cfg):
+    out = []
+    for shape in SHAPES:
+        for scope in SCOPES:
+            for level in (0, 2):
+                out.append((shape, scope, level))
+    return out
+
+
+def check_item(item, cfg):
+    shape, scope, level = item
+    built = shape_program(tuple(shape), scope)
+    cls = ['catalogue:shape:' + shape[0], 'catalogue:scope:' + scope]
+    if built is None:
+        return {'key': digest([shape[0], scope, level]), 'nontrivial': False,
+                'classes': ['catalogue:not_applicable'], 'failures': []}
+    text, by_line = built
+    return judge_text(text, by_line, level, cfg, cls)
+
+
+def judge_text(text, by_line, level, cfg, cls):
+    info = {'accepted': False, 'text': text, 'compared': 0, 'in_proc': 0,
+            'varying': 0, 'kinds': set()}
+    failures = []
+    m = X.compile_one(text, level, True)
+    if m.kind != 'accepted':
+        failures.append(('catalogue:not_accepted', {'got': repr(m)[:300]}))
+    else:
+        info['accepted'] = True
+        di = m.module.debug_info
+        exprs = {}
+        for r in di.stmts:
+            if r.end_offset > r.start_offset and \
+                    r.source_start_line in by_line and \
+                    di.source_code[r.source_start_offset:
+                                   r.source_end_offset].startswith(
+                                       'PRINT "@@"'):
+                exprs[r.start_offset] = by_line[r.source_start_line]
+        if len(exprs) != len(by_line):
+            failures.append(('catalogue:probe_records_missing', {
+                'found': len(exprs), 'wanted': len(by_line)}))
+        cfg2 = dict(cfg, max_hits=64)
+        failures.extend(core(m.module, exprs, {}, level, cfg2, info))
+        want = sum(len(v) for v in by_line.values())
+        if not failures and info['compared'] < want:
+            failures.append(('catalogue:probe_not_compared', {
+                'compared': info['compared'], 'wanted': want}))
+    fl = [{'bucket': b, 'detail': dict(d, level=level),
+           'case': {'text': text, 'level': level,
+                    'probes': {str(k): [[pe.txt, pe.kind, pe.far]
+                                        for pe in v]
+                               for k, v in by_line.items()}}}
+          for b, d in failures]
+    return {'key': digest([text, level]), 'nontrivial': info['compared'] > 0,
+            'classes': cls + ['compared:' + k for k in sorted(info['kinds'])],
+            'failures': fl, 'inconclusive': info.get('inconclusive'),
+            'extra_evals': max(0, info['compared'] - 1),
+            'sample': {'source': text, 'level': level}
+            if level == 0 and digest(text)[0] in '01' else None}
